@@ -138,6 +138,10 @@ def ctx (s : State) :=
   unfold access; dsimp only; repeat' split
   all_goals rfl
 
+@[simp] theorem pickleAccess_ctx (s : State) (i) : ctx (pickleAccess s i).1 = ctx s := by
+  rcases pickleAccess_cases s i with h | h <;> rw [h]
+  exact access_ctx s i
+
 @[simp] theorem classify_ctx (s : State) (i k) : ctx (classify s i k) = ctx s := by
   unfold classify; split <;> rfl
 
@@ -322,6 +326,10 @@ def books (s : State) := (s.added, s.creating, s.modified)
   unfold access; dsimp only; repeat' split
   all_goals rfl
 
+@[simp] theorem pickleAccess_books (s : State) (i) : books (pickleAccess s i).1 = books s := by
+  rcases pickleAccess_cases s i with h | h <;> rw [h]
+  exact access_books s i
+
 @[simp] theorem serialize_books (s : State) (refs) : books (serialize s refs).1 = books s := by
   have := (serialize_ok s refs).frame
   rw [this]; rfl
@@ -344,6 +352,10 @@ def stores (s : State) := (s.sp, s.staged, s.nstores)
   unfold access; dsimp only; repeat' split
   all_goals rfl
 
+@[simp] theorem pickleAccess_stores (s : State) (i) : stores (pickleAccess s i).1 = stores s := by
+  rcases pickleAccess_cases s i with h | h <;> rw [h]
+  exact access_stores s i
+
 @[simp] theorem serialize_stores (s : State) (refs) : stores (serialize s refs).1 = stores s := by
   have := (serialize_ok s refs).frame
   rw [this]; rfl
@@ -364,6 +376,10 @@ theorem classify_cache (s : State) (i k k') :
   unfold access; dsimp only; repeat' split
   all_goals rfl
 
+@[simp] theorem pickleAccess_cache (s : State) (i) : (pickleAccess s i).1.cache = s.cache := by
+  rcases pickleAccess_cases s i with h | h <;> rw [h]
+  exact access_cache s i
+
 @[simp] theorem serialize_cache (s : State) (refs) : (serialize s refs).1.cache = s.cache := by
   have := (serialize_ok s refs).frame
   rw [this]
@@ -380,6 +396,10 @@ theorem classify_cache (s : State) (i k k') :
 @[simp] theorem access_nextOid (s : State) (i) : (access s i).1.nextOid = s.nextOid := by
   unfold access; dsimp only; repeat' split
   all_goals rfl
+
+@[simp] theorem pickleAccess_nextOid (s : State) (i) : (pickleAccess s i).1.nextOid = s.nextOid := by
+  rcases pickleAccess_cases s i with h | h <;> rw [h]
+  exact access_nextOid s i
 
 @[simp] theorem storageStore_objs (s : State) (k r) : (storageStore s k r).1.objs = s.objs := by
   unfold storageStore; dsimp only; repeat' split
@@ -443,6 +463,15 @@ theorem access_objs (s : State) (i j) :
     · left; simp [hj]
   · left; unfold access; simp [hg]
 
+theorem pickleAccess_objs (s : State) (i j) :
+    (pickleAccess s i).1.objs j = s.objs j ∨
+    (j = i ∧ (s.objs i).status = .ghost ∧ ((pickleAccess s i).1.objs i).status = .uptodate ∧
+      ((pickleAccess s i).1.objs i).oid = (s.objs i).oid ∧ ((pickleAccess s i).1.objs i).jar = (s.objs i).jar ∧
+      ∃ k, (s.objs i).oid = some k ∧ loadRec s k ≠ none) := by
+  rcases pickleAccess_cases s i with h | h <;> rw [h]
+  · exact Or.inl rfl
+  · exact access_objs s i j
+
 theorem access_nonghost (s : State) (i) (h : (s.objs i).status ≠ .ghost) : access s i = (s, none) := by
   unfold access; simp [h]
 
@@ -477,6 +506,10 @@ def tmpCr (s : State) : Option (Map Bool) := s.sp.map (·.creating)
 
 @[simp] theorem access_tmpCr (s : State) (i) : tmpCr (access s i).1 = tmpCr s := by
   have := access_stores s i; simp only [stores, Prod.mk.injEq] at this; unfold tmpCr; rw [this.1]
+
+@[simp] theorem pickleAccess_tmpCr (s : State) (i) : tmpCr (pickleAccess s i).1 = tmpCr s := by
+  rcases pickleAccess_cases s i with h | h <;> rw [h]
+  exact access_tmpCr s i
 
 @[simp] theorem serialize_tmpCr (s : State) (refs) : tmpCr (serialize s refs).1 = tmpCr s := by
   have := serialize_stores s refs; simp only [stores, Prod.mk.injEq] at this; unfold tmpCr; rw [this.1]
@@ -521,6 +554,12 @@ theorem access_ok_nonghost (s : State) (i) (h : (access s i).2 = none) :
     all_goals simp_all [setO]
   · rw [access_nonghost s i hg]; exact hg
 
+theorem pickleAccess_ok_nonghost (s : State) (i) (h : (pickleAccess s i).2 = none) :
+    ((pickleAccess s i).1.objs i).status ≠ .ghost := by
+  rcases pickleAccess_cases s i with h1 | h1
+  · rw [h1] at h; cases h
+  · rw [h1] at h ⊢; exact access_ok_nonghost s i h
+
 theorem storeRec_none (s : State) (i k r) (hsp : s.sp = none) (h : (storeRec s i k r).2 = none) :
     (storeRec s i k r).1.sp = none ∧ (storeRec s i k r).1.nstores = s.nstores + 1 ∧
     (storeRec s i k r).1.staged = s.staged ++ [(k, r)] := by
@@ -545,6 +584,17 @@ theorem access_err_state (s : State) (i) (h : (access s i).2 ≠ none) : (access
   repeat' split
   all_goals first | rfl | skip
   all_goals simp_all
+
+theorem pickleAccess_err_state (s : State) (i) (h : (pickleAccess s i).2 ≠ none) :
+    (pickleAccess s i).1 = s := by
+  rcases pickleAccess_cases s i with h1 | h1
+  · rw [h1]
+  · rw [h1] at h ⊢; exact access_err_state s i h
+
+theorem pickleAccess_str {P s} (h : Str P s) (i) : Str P (pickleAccess s i).1 := by
+  rcases pickleAccess_cases s i with h1 | h1 <;> rw [h1]
+  · exact h
+  · exact access_str h i
 
 theorem storeRec_cache' (s : State) (i k r) :
     (storeRec s i k r).1.cache = s.cache ∨ (storeRec s i k r).1.cache = s.cache.set k i := by
